@@ -646,6 +646,12 @@ pub(crate) fn run(
                         // Referenced group hasn't matched, so the backref doesn't match either
                         break 'fail;
                     }
+                    if lo > hi {
+                        // The group is being re-entered (self-referential backref): its start
+                        // belongs to this iteration but its end to an older one, so there is no
+                        // captured text to refer to yet
+                        break 'fail;
+                    }
                     let ref_text = &s[lo..hi];
                     let ix_end = ix + ref_text.len();
                     if !matches_literal(s, ix, ix_end, ref_text) {
